@@ -4,11 +4,14 @@ Proof: FP/Props/C07.lean on the LP generator `klaeLP` (DAG model): soundness (ev
 routes, pi = x*w, ee(e) >= |f(e) - sum_i w_i[e in p_i]|), completeness (every bounded k-route solution is a satisfying
 assignment with objective sum scale*|..|), optimality transfer incl. tightness of the error columns, adequacy of
 w_max = k*max f (clamping weights to max f never increases an error), optimality over all routes of the user's graph and
-all non-negative weights (klae_optimal), and the objective-consistency characterisation (get_objective_value() =
-solver objective iff every edge has scale 1 or zero error) with the concrete counterexample for scale 1/2 (every
-optimum of a -> b -> c, f = (4,1), scaling {(a,b): 1/2} has solver objective 3/2 and reported objective 3).
+all non-negative weights (klae_optimal), and objective consistency in full: the model of get_objective_value()
+(since fix 1c464ac: sum of edge_errors[e] * error_scaling.get(e, 1)) equals the solver objective on every assignment
+(objective_consistent), so the objective clause of is_valid_solution() never rejects (objective_check_passes), and at an
+optimum it is the total scaled error recomputed from the returned paths (reported_objective_at_optimum); regression
+example: every optimum of a -> b -> c, f = (4,1), scaling {(a,b): 1/2} has solver and reported objective 3/2.
 Tie: K2 LP-dump equality of kLeastAbsErrors (plain and given-weights) against klaeLP / klaeGivenLP; K1 evaluation of the
-spec vocabulary (driver op check.klae) on the solutions the real code returns; K5 end-to-end oracle with a brute-force
+spec vocabulary (driver op check.klae) on the solutions the real code returns, incl. the model of get_objective_value()
+evaluated on the returned edge_errors against the real get_objective_value(); K5 end-to-end oracle with a brute-force
 optimum on kLeastAbsErrors and kLeastAbsErrorsCycles.
 """
 import json, random
@@ -18,9 +21,9 @@ from fpv.common import frac, qstr
 
 THEOREMS = ["FP.Props.C07.klae_sound", "FP.Props.C07.klae_routes_valid", "FP.Props.C07.klae_objective",
             "FP.Props.C07.klae_complete", "FP.Props.C07.klae_opt_transfer", "FP.Props.C07.wmax_adequate",
-            "FP.Props.C07.klae_optimal", "FP.Props.C07.objective_consistent_iff",
-            "FP.Props.C07.objective_consistent_unscaled", "FP.Props.C07.objective_inconsistent_witness",
-            "FP.Props.C07.every_optimum_inconsistent",
+            "FP.Props.C07.klae_optimal", "FP.Props.C07.objective_consistent",
+            "FP.Props.C07.objective_check_passes", "FP.Props.C07.reported_objective_at_optimum",
+            "FP.Props.C07.objective_regression_example", "FP.Props.C07.every_optimum_consistent",
             "FP.Props.C01.pathcore_sound", "FP.Props.C12.binProd_exact"]
 IMPORTS = ["FP.Props.C07", "FP.Props.C01", "FP.Props.C12"]
 K2_ADAPTERS = ["klae"]
@@ -36,7 +39,8 @@ MODEL_SCOPE = ("modelled and proven: DAG MILP route of kLeastAbsErrors without s
                "completeness and optimality (soundness: all configurations); given-weights LP modelled (K2) but not proven; "
                "cyclic class: end-to-end oracle only (its encoder is modelled elsewhere); node-weighted inputs go through "
                "the node expansion of C11 and are not exercised here; get_objective_value is modelled as the sum of the "
-               "error columns (rounding of solver values not modelled)")
+               "error columns times their scale factors (FP.reportedObjective; rounding of solver values not modelled) and "
+               "compared with the real method on every returned edge_errors dictionary (K1.objective_model)")
 TRUSTED = ["HiGHS returns an optimal assignment of the LP it was given when it reports kOptimal (optimality is re-checked "
            "against the brute-force optimum on every K5 instance)"]
 ASSUMPTIONS = ["float weights: comparisons at 1e-6; exactness claims are for exact arithmetic",
@@ -133,7 +137,8 @@ def lae_case(ctx, inst, suite="K5.lae", brute=True):
             if models.is_cyc(cls):      # diagnosis: is the gap explained by the column bound w_max = k * max f ?
                 wmax = inst["k"] * ug.maxf
                 capped = errors.lae_optimum(ug, inst["k"], wint, cap=wmax)
-                if capped is not None and close(total, capped, wint):
+                # (the model may use walks outside the enumeration, so its value can be below the capped optimum)
+                if capped is None or capped >= total or close(total, capped, wint):
                     what += (f" — explained by the column bound w_max = k*max f = {show(wmax)}: every better choice needs "
                              f"weight x multiplicity (pi) or an edge error (ee) above w_max")
             ctx.violation(what, dict(view, brute_force_optimum=qstr(opt)), site=f"{cls}.optimality")
@@ -156,6 +161,20 @@ def lae_case(ctx, inst, suite="K5.lae", brute=True):
         ctx.rep.cov["traces_validated_against_impl"] += 1
         if mine != theirs:
             ctx.disagree("K1.spec_eval", req, mine, theirs, note="oracle recomputation vs Lean spec (LAE.absErr / totalErr)")
+    # --- K1: the Lean model of get_objective_value() on the edge_errors the real code returned
+    if ctx.driver is not None and all(e in rep_errs for e in ug.basic):
+        req = {"op": "check.klae", "nodes": inst["nodes"], "edges": inst["edges"], "flow": inst["flow"],
+               "ignore": inst.get("ignore", []), "starts": inst.get("starts", []), "ends": inst.get("ends", []),
+               "scaling": inst.get("scaling", []), "weight_type": inst["weight_type"], "k": len(routes),
+               "routes": routes, "weights": [qstr(w) for w in ws],
+               "edge_errors": [[e[0], e[1], qstr(rep_errs[e])] for e in ug.basic]}
+        model_val = frac(ctx.driver.call(req)["reported_objective"])
+        ctx.rep.count("K1.objective_model", req, nontrivial=model_val > 0 and bool(inst.get("scaling")),
+                      hist=[cls, "scaling" if inst.get("scaling") else "no scaling"])
+        ctx.rep.cov["traces_validated_against_impl"] += 1
+        if (model_val != reported) if wint else abs(model_val - reported) > Fraction(1, 10**9) * max(1, abs(model_val)):
+            ctx.disagree("K1.objective_model", req, show(reported), show(model_val),
+                         note="get_objective_value() of the real class vs FP.reportedObjective on the returned edge_errors")
     return {"routes": routes, "weights": ws, "total": total, "opt": opt, "reported": reported}
 
 
